@@ -123,7 +123,7 @@ def route_csv(tracks, wd, display):
                 nm["pos"] = list(pk)
             else:
                 nm["pos"] = list(f[pk]["value_names"])
-            for k in ("score",):
+            for k in ("score", "tag", "ok"):
                 if k in f:
                     nm[k] = f[k].get("display_name", k)
                     loaded.append(k)
@@ -144,6 +144,8 @@ def route_csv(tracks, wd, display):
             y = norm(b_tracks.get_node_attr(n, k))
             if y == "NaN":
                 y = None  # the format cannot distinguish a missing value from NaN
+            if x == "":
+                x = None  # ... nor an empty string from an empty cell
             if x != y:
                 probs.append((f"{route}-feature", f"node {n} {k}: {x!r} -> {y!r}",
                               f"C14/{route}/feature/{k}"))
@@ -203,14 +205,21 @@ def route_geff(tracks, wd):
             continue  # registered but present on no node: nothing is written for it
         nm[k] = k
         loaded[k] = False
+    # edge features that carry values are loaded as well (IoU, registered custom ones)
+    eloaded = {}
+    for k in list(f.edge_features):
+        if f[k]["num_values"] == 1 and any(k in dd for _, _, dd in t.graph.edges(data=True)):
+            eloaded[k] = False
     with warnings.catch_warnings():
         warnings.simplefilter("ignore")
-        export_to_geff(t, d)
+        export_to_geff(t, d, zarr_format=3 if len(a["nodes"]) % 2 else 2)
         segp = (d / "segmentation") if t.segmentation is not None else None
         try:
             b_tracks = import_from_geff(d / "tracks", node_name_map=nm, segmentation_path=segp,
                                         scale=None if t.scale is None else list(t.scale),
-                                        node_features=loaded or None)
+                                        node_features=loaded or None,
+                                        edge_name_map={k: k for k in eloaded} or None,
+                                        edge_features=eloaded or None)
         except ValueError as e:
             if ("Error testing seg id" in str(e) or "out of bounds" in str(e)) and \
                     centroid_outside_own_mask(t):
@@ -239,6 +248,17 @@ def route_geff(tracks, wd):
                 break
         if probs:
             break
+    if not probs:
+        for (u, v) in t.graph.edges:
+            for k in eloaded:
+                x = norm(t.get_edge_attr((u, v), k))
+                y = norm(b_tracks.get_edge_attr((u, v), k))
+                if x != y and not (x is None and (y is None or y == "NaN")):
+                    probs.append(("geff-edge-feature", f"edge ({u},{v}) {k}: {x!r} -> {y!r}",
+                                  f"C14/geff/edge-feature/{k}"))
+                    break
+            if probs:
+                break
     if t.segmentation is not None and not probs:
         if not np.array_equal(np.asarray(b_tracks.segmentation), np.asarray(t.segmentation)):
             probs.append(("geff-seg", "segmentation differs after the GEFF round trip",
